@@ -64,6 +64,34 @@ def dedupe(scns, key=lambda d: json.dumps(d, sort_keys=True)):
 # ---------------------------------------------------------------------------------------------
 # iterator scenarios: descriptor {n,f,b,op,arg,pan} -> script
 # ---------------------------------------------------------------------------------------------
+SEARCH_OPS = ("iter_position", "iter_rposition", "iter_any", "iter_all", "iter_find", "iter_rfind")
+
+
+def iter_search_scripts(lens, prop, faults=False):
+    """The searching consumers (provided methods of Iterator / DoubleEndedIterator that an implementation may
+    override) and for_each, from every (front, back) position: the predicate ends the search at every call index or
+    never; with `faults`, the predicate / closure panics at every call index."""
+    out = []
+    for n in lens:
+        for f in range(0, n + 1):
+            for b in range(f, n + 1):
+                ln = b - f
+                for op in SEARCH_OPS:
+                    for stop in range(-1, ln):
+                        calls = ln if stop < 0 else stop + 1
+                        if not faults:
+                            out.append(iter_script({"n": n, "f": f, "b": b, "op": op, "arg": stop}, prop))
+                        else:
+                            for k in range(calls):
+                                out.append(iter_script({"n": n, "f": f, "b": b, "op": op, "arg": stop, "panic_at": k}, prop))
+                if not faults:
+                    out.append(iter_script({"n": n, "f": f, "b": b, "op": "iter_for_each"}, prop, followups=False))
+                else:
+                    for k in range(ln):
+                        out.append(iter_script({"n": n, "f": f, "b": b, "op": "iter_for_each", "panic_at": k}, prop, followups=False))
+    return out
+
+
 def iter_script(d, prop, followups=True):
     n, f, b, op, arg, pan = d["n"], d["f"], d["b"], d["op"], d.get("arg", 0), d.get("pan", 0)
     steps = [{"op": "mk", "n": n}, {"op": "into_iter", "recv": [1]}]
@@ -80,8 +108,10 @@ def iter_script(d, prop, followups=True):
         st = {"op": op, "recv": [2]}
         if "panic_at" in d:
             st["panic_at"] = d["panic_at"]
+        if op in SEARCH_OPS:
+            st["arg"] = arg          # the call index at which the scripted predicate ends the search (-1: never)
         steps.append(st)
-    if followups and op not in ("drop", "count", "last", "iter_fold", "iter_rfold"):
+    if followups and op not in ("drop", "count", "last", "iter_fold", "iter_rfold", "iter_for_each"):
         steps += [{"op": "len", "recv": [2]}, {"op": "next", "recv": [2]}, {"op": "next_back", "recv": [2]}, {"op": "next", "recv": [2]}]
     s = {"case": "iter", "prop": prop, "ety": d.get("ety", "tk"), "steps": steps, "d": d}
     if pan:
@@ -207,6 +237,9 @@ def c06(tier, seed):
     scns = [iter_script(d, "C06") for d in descs + extra]
     # Clone of the iterator for an element type without drop glue but with an observable Clone
     scns += [iter_script(dict(d, ety=e), "C06") for d in descs if d["op"] == "iter_clone" for e in ("plain", "plz")]
+    # searching consumers and for_each from every position
+    sr = iter_search_scripts([0, 1, 2, 3] if tier == "quick" else [0, 1, 2, 3, 4, 5], "C06")
+    scns += sr + [dict(s, ety="plain") for s in sr if s["d"]["n"] <= 2]
     # Clone::clone_from between two iterators, every pair of positions
     cf = iter_clone_from_scripts([0, 1, 2, 3] if tier == "quick" else [0, 1, 2, 3, 4, 5], "C06")
     scns += cf + [dict(s, ety="plain") for s in cf if s["d"]["n"] <= 2]
@@ -389,6 +422,8 @@ def collect_scripts(lens, prop, faults, extra_hints=True):
         hints = [None, [0, -1], [0, n + 5]]
         if extra_hints:
             hints += [[n, n], [n + 1, -1], [0, max(n - 1, 0)], [n + 2, n + 2], [0, 0], [1, 1]]
+            # bounds of usize::MAX (coded 2^31 - 1): an upper bound that cannot be incremented, a lower bound beyond any N
+            hints += [[0, 2147483647], [n, 2147483647], [2147483647, -1]]
         for sc in scripts:
             for h in hints:
                 for op in ("try_from_iter", "from_iter", "try_boxed_from_iter", "boxed_from_iter"):
@@ -411,7 +446,7 @@ def collect_scripts_large(lens, prop):
     out = []
     for n in lens:
         scripts = [[1] * (n - 1), [1] * n, [1] * (n + 1), [1] * (n + 3), [1] * (n - 1) + [0, 1, 1], [1] * n + [0, 1]]
-        hints = [None, [0, -1], [n, n], [n + 1, -1], [0, n - 1], [0, 0]]
+        hints = [None, [0, -1], [n, n], [n + 1, -1], [0, n - 1], [0, 0], [0, 2147483647]]
         for sc in scripts:
             for h in hints:
                 for op in ("try_from_iter", "from_iter", "try_boxed_from_iter", "boxed_from_iter"):
@@ -461,6 +496,7 @@ def c04(tier, seed):
     scns += clone_default_scripts(small + [8], "C04", True)
     scns += iter_cb_fault_scripts(small, "C04")
     scns += iter_clone_from_scripts([1, 2, 3] if tier == "quick" else [1, 2, 3, 4], "C04", faults=True)
+    scns += iter_search_scripts([1, 2, 3] if tier == "quick" else [1, 2, 3, 4], "C04", faults=True)
     ri = c.mc("MC_Iter", "MC_Iter_fq" if tier == "quick" else "MC_Iter_ft")
     scns += [iter_script(d, "C04") for d in dedupe([d for d in ri["scenarios"] if d.get("cpan", 0) > 0 and d["pan"] == 0])]
     scns += collect_scripts([0, 1, 2, 3] if tier == "quick" else [0, 1, 2, 3, 4, 8], "C04", True, extra_hints=False)
@@ -534,6 +570,8 @@ def with_etys(scns, etys):
     for s in scns:
         for e in etys:
             if e != "tk" and (s.get("fuse_drop") or s.get("fuse_clone")):
+                continue
+            if e in ("zst", "plz") and s.get("noanon"):
                 continue
             if e in ("zst", "plz") and any(st.get("pass_mod", -1) >= 0 or st.get("op") in ("clone_from", "iter_clone_from") for st in s["steps"]):
                 continue     # (identity inference does not cover a destination's old elements dropped amid clones)
@@ -1174,6 +1212,9 @@ def c17(tier, seed):
         elif mode == "fixed":
             st["hints"] = [d["hints"][1], d["hints"][2]]
         scns.append({"case": "de-script", "prop": "C17", "ety": "tk", "steps": [st], "d": dict(d)})
+        # serde's in-place entry point over an existing array (ids 1..n are the place's old elements)
+        scns.append({"case": "de-script-inplace", "prop": "C17", "ety": "tk", "noanon": True,
+                     "steps": [_mk("arr", d["n"]), dict(st, op="deserialize_in_place", recv=[1])], "d": dict(d, in_place=True)})
         # the same source presented as a binary (not human-readable) format: the contract does not mention the flag
         scns.append({"case": "de-script-bin", "prop": "C17", "ety": "tk", "steps": [dict(st, hr=False)], "d": dict(d, human_readable=False)})
     # scripted sources at boundary / large N: counts N-1 .. N+2, the hint kinds, an element error at the first,
